@@ -85,6 +85,14 @@ CORPUS = [
 ]
 
 
+# Small witnesses of staged findings that the sampled generator does not reach in every tier (run in both tiers; they are
+# NOT required to certify).
+WITNESSES = [
+    # C03/optimize-changes-result:order-key-expression-over-renamed-column
+    [("select", [(C("a"), "a"), (C("b"), "b")]), ("toDF", ["x", "y"]), ("toDF", ["s", "b"]),
+     ("orderBy", [(("bin", "Sub", C("b"), C("s")), True, None), (C("b"), False, None), (C("s"), False, None)]), ("limit", 3)],
+]
+
 # ------------------------------------------------------------------------------------------------------------
 # program construction
 # ------------------------------------------------------------------------------------------------------------
@@ -103,7 +111,7 @@ def chain_programs(ctx):
     out, seen = [], set()
     for i, st in enumerate(CORPUS):
         out.append({"kind": "chain", "steps": st, "corpus": True, "name": f"corpus{i}"})
-    for st in corpus5 + exh + rand:
+    for st in WITNESSES + corpus5 + exh + rand:
         out.append({"kind": "chain", "steps": st, "corpus": False, "name": None})
     res = []
     for p in out:
@@ -247,6 +255,14 @@ def free_programs():
         lambda s, F, t: sales(s, t).orderBy("code", "qty").limit(4).where((F.col("qty") == 5.0) & (F.col("qty").cast("string") == "5")), "cross-type-compare")
     add("text-eq-int-then-concat-after-union",
         lambda s, F, t: sales(s, t).select("code").union(sales(s, t).select("code")).where((F.col("code") == 2) & (F.concat(F.col("code"), F.lit("x")) == "2x")), "cross-type-compare")
+    # predicates given as SQL text / F.expr: they arrive as bare connectors (no Paren node), so whoever combines them with
+    # another condition must keep the grouping, and the printed text must read like the tree the optimizer gets
+    add("sqlstr-where-then-or", lambda s, F, t: lr(s, t)[0].where("a = 1").where("b = 1 or s = 'x'"), "string-predicate")
+    add("sqlstr-or-then-where", lambda s, F, t: lr(s, t)[0].where("b = 3 or s = 'y'").where("a = 1"), "string-predicate")
+    add("sqlstr-or-then-column-where", lambda s, F, t: lr(s, t)[0].where(F.expr("a > 1 or b > 2")).where(F.col("s") == "x"), "string-predicate")
+    add("sqlstr-dropna-then-or", lambda s, F, t: lr(s, t)[0].dropna().where("b = 2 or s = 'y'"), "string-predicate")
+    add("sqlstr-and-or-mix", lambda s, F, t: lr(s, t)[0].filter("a = 1 and b = 2 or s = 'z'").filter("b > 0 or a is null").filter(F.col("a").isNotNull()), "string-predicate")
+    add("sqlstr-arith-select", lambda s, F, t: lr(s, t)[0].select(F.expr("a + b * 2").alias("u"), F.expr("(a - b) * 2").alias("v"), (-F.expr("a + b")).alias("w")).where("u > 3 or v < 0"), "string-predicate")
     # hints never change a result; the engine dialect has no syntax for them
     add("hint-broadcast-join", lambda s, F, t: (lambda l, r: l.join(r.hint("broadcast"), "a", "left").select("b", "t"))(*lr(s, t)), "hint")
     add("repartition-n-then-agg", lambda s, F, t: lr(s, t)[0].repartition(2).groupBy("s").agg(F.count("*").alias("n")), "hint")
@@ -359,6 +375,49 @@ def refine_mode(mode, tree, exp):
         return "count"
 
 
+def precedence_hazards(tree, exp):
+    """sqlglot's generator prints operators without adding parentheses: the text reads like the tree only if every operand
+    that binds LOOSER than its parent is a Paren node.  Returns the offending (parent, child) class names."""
+    CMP = (exp.EQ, exp.NEQ, exp.LT, exp.LTE, exp.GT, exp.GTE, exp.NullSafeEQ, exp.NullSafeNEQ, exp.Is, exp.Like, exp.ILike)
+
+    def level(n):
+        if isinstance(n, exp.Or):
+            return 1
+        if isinstance(n, exp.And):
+            return 2
+        if isinstance(n, exp.Not):
+            return 3
+        if isinstance(n, CMP) or isinstance(n, (exp.In, exp.Between)):
+            return 4
+        if isinstance(n, (exp.Add, exp.Sub)):
+            return 5
+        if isinstance(n, (exp.Mul, exp.Div, exp.Mod)):
+            return 6
+        if isinstance(n, exp.Neg):
+            return 7
+        return 9          # atoms, functions, CASE, Paren, casts ...
+
+    out = []
+    for n in tree.walk():
+        pl = level(n)
+        if pl == 9:
+            continue
+        kids = [("this", n.args.get("this")), ("expression", n.args.get("expression"))]
+        for side, k in kids:
+            if not isinstance(k, exp.Expression):
+                continue
+            kl = level(k)
+            if kl == 9:
+                continue
+            loose = kl < pl
+            # the right operand of - / % and both operands of a comparison must bind strictly tighter
+            if kl == pl and ((side == "expression" and isinstance(n, (exp.Sub, exp.Div, exp.Mod))) or pl == 4):
+                loose = True
+            if loose:
+                out.append(f"{type(n).__name__}({side}={type(k).__name__})")
+    return out
+
+
 def exec_text(conn, text):
     cur = conn.execute(text)
     rows = cur.fetchall()
@@ -460,6 +519,7 @@ def mechanisms(raw_tree, exp):
         by_name = {a: s_ for a, s_ in sels if a}
         order_keys = set()     # names used as ORDER BY keys in an earlier SELECT without LIMIT
         limit_below = {}       # CTE name -> some SELECT at or below it has a LIMIT
+        origin = {}            # CTE name -> {output column: VALUES column it is a plain copy of | None}
 
         def is_plain(item, n):
             e = item.this if isinstance(item, exp.Alias) else item
@@ -495,6 +555,39 @@ def mechanisms(raw_tree, exp):
                 if hit:
                     out.append("select-item-captured-by-sibling-alias")
                     break
+            # where each output name of this SELECT comes from: the name of the VALUES column it is a plain copy of, or None
+            src_origin = origin.get(src_name, {})
+            if frm is not None and isinstance(frm.this, exp.Values):
+                al = frm.this.args.get("alias")
+                src_origin = {c_.name: c_.name for c_ in (al.columns if al is not None else [])}
+            my_origin = {}
+            for i in items:
+                e = i.this if isinstance(i, exp.Alias) else i
+                while isinstance(e, (exp.Paren, exp.Cast)):
+                    e = e.this
+                my_origin[i.alias_or_name] = src_origin.get(e.name) if isinstance(e, exp.Column) else None
+            if alias:
+                origin[alias] = my_origin
+            own_order = sel.args.get("order")
+            if own_order is not None:
+                # the optimizer leaves the names inside an ORDER BY *expression* unqualified; once the SELECT is merged down to
+                # the VALUES source they bind to the source columns of that name -- wrong whenever the name was introduced by a
+                # renaming / an alias on the way (its origin is another source column, or a computed value)
+                hit = False
+                for o in own_order.expressions:
+                    k = o.this
+                    while isinstance(k, exp.Paren):
+                        k = k.this
+                    if isinstance(k, exp.Column):
+                        continue
+                    for c in k.find_all(exp.Column):
+                        if c.table:
+                            continue
+                        o_ = src_origin[c.name] if c.name in src_origin else my_origin.get(c.name, c.name)
+                        if o_ != c.name:
+                            hit = True
+                if hit:
+                    out.append("order-key-expression-over-renamed-column")
             for n in sorted(order_keys):
                 if n in defs and not is_plain(defs[n], n):
                     out.append("order-key-captured-by-later-alias")
@@ -520,7 +613,11 @@ def mechanisms(raw_tree, exp):
     return seen
 
 
-MECH_ORDER = ["filter-pushed-below-limit", "where-captured-by-select-alias", "select-item-captured-by-sibling-alias",
+# hazards that NAME an observed deviation, most specific first.  "where-captured-by-select-alias" and
+# "select-item-captured-by-sibling-alias" are still detected (and recorded in the replay) but no longer name anything: the
+# defects are repaired (/repo 9853fb2), the hazard is present in many harmless trees, and a regression is reported under
+# its program shape, which no known entry lists
+MECH_ORDER = ["filter-pushed-below-limit", "order-key-expression-over-renamed-column",
               "order-key-captured-by-later-alias", "order-key-dropped-by-later-projection"]
 TAG_SIG = {"semi": "semi-anti-join-kind-lost", "anti": "semi-anti-join-kind-lost",
            "diamond": "shared-lineage", "selfjoin": "shared-lineage"}
@@ -639,6 +736,14 @@ def _worker(args):
                 try:
                     raw_tree = df._get_expressions(optimize=False)[0]
                     ctext = session._to_sql(raw_tree)
+                    haz = precedence_hazards(raw_tree, exp)
+                    if haz:
+                        R["brokens"].append(("T2:tree-not-print-safe",
+                                             f"{desc}: the tree collect() renders has an operand that binds looser than its parent and is "
+                                             f"not parenthesised ({', '.join(sorted(set(haz))[:4])}): the generator prints no parentheses, so the "
+                                             "text reads differently from the tree the optimizer / exporter read",
+                                             {"program": desc, "name": prog.get("name"), "steps_json": prog.get("steps"),
+                                              "kind": prog["kind"], "text": ctext[-600:]}))
                     ckey = (False, ccfg[0], ccfg[1])
                     if ckey in texts and ctext != texts[ckey]:
                         R["brokens"].append(("T3:unopt-text-vs-collect-text",
